@@ -117,3 +117,37 @@ func callArg(rel, fn, callee string, idx int, coqName string) {
 		out.Missing = append(out.Missing, rel+"."+fn+"->"+callee)
 	}
 }
+
+// constString records a package-level string constant.
+func constString(rel, name, coqName string) {
+	p := load(rel)
+	obj := p.pkg.Scope().Lookup(name)
+	c, ok := obj.(*types.Const)
+	if !ok || c.Val().Kind() != constant.String {
+		out.Missing = append(out.Missing, rel+"."+name)
+		return
+	}
+	out.Strings[coqName] = constant.StringVal(c.Val())
+}
+
+// callsWithPrefix records, in order, the selector calls pkg.Fn inside function fn whose package name is prefix.
+func callsWithPrefix(rel, fn, prefix, coqName string) {
+	p := load(rel)
+	fd := findFunc(p, fn)
+	if fd == nil {
+		out.Missing = append(out.Missing, rel+"."+fn)
+		return
+	}
+	var names []string
+	ast.Inspect(fd.Body, func(n ast.Node) bool {
+		if ce, ok := n.(*ast.CallExpr); ok {
+			if se, ok := ce.Fun.(*ast.SelectorExpr); ok {
+				if id, ok := se.X.(*ast.Ident); ok && id.Name == prefix {
+					names = append(names, se.Sel.Name)
+				}
+			}
+		}
+		return true
+	})
+	out.Strings[coqName] = strings.Join(names, ",")
+}
